@@ -37,7 +37,7 @@ CHECKS = {
          "input selections dependency-closed for the restore claim (D14)", "TLA+ spec Fs.tla checked with TLC; per-transition conformance tests + clean histories on the real code"),
  "C08": ("fs", "model_checking", "TLC: BuildHermetic, BuildVerdict, BuildIdempotent, BuildForgets on Fs.tla; code: every selected build edge from every abstract pre-state (absent / stale / each corruption kind), result compared with a pristine reference build; builds killed at every hook event index (incl. every line step) and SIGKILLed at random times, then repaired by building again", "2.6, 3.5, 5 C08",
          "for failing builds only the verdict is compared", "TLA+ spec Fs.tla checked with TLC; per-transition conformance tests + deterministic crash points through the hooks"),
- "C09": ("fs", "model_checking", "TLC: NeededEquivBuild, NoRewriteWhenFresh, NeededAfterBuildIdle on Fs.tla; code: every selected needed-build edge and every temp-writing edge of build/verify: same verdict and bytes as build, touched set (inode, mtime) excludes everything already correct, stale files brought up to date; 1-2% through the CLI flag -N", "2.6, 3.5, 5 C09",
+ "C09": ("fs", "model_checking", "TLC: NeededEquivBuild, NoRewriteWhenFresh, NeededAfterBuildIdle on Fs.tla; code: every selected needed-build edge and every temp-writing edge of build/verify: same verdict and bytes as build, touched set (inode, mtime) excludes everything already correct, stale files brought up to date; the same no-rewrite / repair histories over outputs and temp files of 0..70001 bytes around the 8 KiB buffer boundaries (rewrite_size_classes); 1-2% through the CLI flag -N", "2.6, 3.5, 5 C09",
          "touched = inode or mtime (sentinel in 2001) or bytes changed", "TLA+ spec Fs.tla checked with TLC; per-transition conformance tests with inode/mtime comparison"),
  "C10": ("fs", "model_checking", "TLC: OnlyOwnPaths on every edge of Fs.tla; code: edges of all four modes (successful and failing scenarios, three name-shape layouts, inputs by file / output name / directory with -r) executed on trees with decoys at near-miss names; every file that is not an output or temp target of a processed source must keep bytes, inode and mtime, nothing else may appear", "2.6, 3.5, 5 C10",
          "decoy catalogue in lib/fs_engine.py; name resolution itself is C11", "TLA+ spec Fs.tla checked with TLC; per-transition conformance tests comparing the whole tree"),
